@@ -125,6 +125,8 @@ struct NodeOpts {
     //! deployment heights moved by -testactivationheight=name@h (only these five exist); -1 = regtest default
     int h_bip34{-1}, h_dersig{-1}, h_cltv{-1}, h_csv{-1}, h_segwit{-1};
     std::vector<std::string> extra_args; //!< further node args ("-foo=bar")
+    std::optional<uint256> assumed_valid_block; //!< ChainstateManager::Options::assumed_valid_block (-assumevalid); unset = chain default
+    std::optional<uint256> minimum_chain_work;  //!< ChainstateManager::Options::minimum_chain_work (-minimumchainwork); unset = chain default
     std::string Describe() const;   //!< JSON object
 };
 
@@ -468,6 +470,8 @@ struct CoinbaseSpec {
     std::vector<unsigned char> extranonce; //!< pushed after the height (default 4 random-looking bytes from `salt`)
     std::optional<CScript> raw_script_sig; //!< replaces the whole scriptSig
     size_t split{1};                     //!< number of equal-ish outputs the value is split into
+    std::optional<std::vector<CTxOut>> raw_outputs; //!< replaces value/spk/split/extra_outputs (a commitment may still be appended)
+    bool no_witness_nonce{false};        //!< leave the coinbase witness empty even when a commitment is added
 };
 
 struct BlockSpec {
